@@ -50,9 +50,9 @@ def configurations(tier):
 def plan(tier, seed):
     if tier == "quick":
         return ([{"kind": "sweep", "net": n} for n in NETS] + [{"kind": "sizes", "net": n, "part": p} for n in ("BTC", "GRS") for p in (0, 1)] +
-                [{"kind": "random", "n": 9000} for _ in range(7)])
+                [{"kind": "random", "n": 9000} for _ in range(7)] + [{"kind": "history", "n": 12} for _ in range(3)])
     return ([{"kind": "sweep", "net": n} for n in NETS] + [{"kind": "sizes", "net": n, "part": p} for n in ("BTC", "GRS", "LTC") for p in (0, 1)] +
-            [{"kind": "random", "n": 180000} for _ in range(12)])
+            [{"kind": "random", "n": 180000} for _ in range(12)] + [{"kind": "history", "n": 400} for _ in range(6)])
 
 
 # ---------------------------------------------------------------------------------------------
@@ -460,10 +460,77 @@ def _inject(d, kind, rng, MAX):
     return d
 
 
+def _judge_live(net, T, tx, rec, hist):
+    """check() on a live object against the defect predicate of its CURRENT fields"""
+    d = G.from_pycoin(tx)
+    MAX = MAXES[net]
+    dfx = defects(d, MAX)
+    total_size = len(R.serialize(d)) if serialisable(d) else None
+    rec.ev("Tx.check(history)")
+    st, r = observe(tx.check)
+    case = {"net": net, "history": list(hist), "final_shape": [len(d["ins"]), len(d["outs"]), total_size]}
+    rec.case((net, "hist", tuple(hist[-6:]), tuple(dfx), total_size if (total_size or 0) > 900000 else 0))
+    if dfx:
+        if st == "ok":
+            rec.violation("history.check_accepts_defective." + dfx[0], dict(case, defects=dfx), "returned", "raise")
+    elif total_size is not None and total_size <= LIMIT:
+        if st != "ok" and not zero_hash_non_null(d):
+            rec.violation("history.check_rejects_wellformed", case, r, "return")
+
+
+def history_cases(net, T, rng, rec, n):
+    """one Tx object, edited in place between check() calls: the verdict must follow the object's current fields"""
+    MAX = MAXES[net]
+    for _ in range(n):
+        d = _wellformed_random(rng, MAX)
+        if not d["ins"] or not d["outs"]:
+            continue
+        tx = G.to_pycoin(T, d)
+        hist = []
+        _judge_live(net, T, tx, rec, hist)
+        for step in range(rng.randrange(2, 7)):
+            e = rng.choice(["grow_script", "shrink_script", "add_out", "pop_out", "value_hi", "value_ok", "dup_in", "undup_in", "null_in", "unnull_in",
+                            "big_witness", "grow_out_script"])
+            if e == "grow_script":
+                tx.txs_in[0].script = b"\x51" * rng.choice([LIMIT - 200, LIMIT, LIMIT + 10])
+            elif e == "shrink_script":
+                tx.txs_in[0].script = b"\x51" * rng.choice([0, 5, 100])
+            elif e == "grow_out_script":
+                tx.txs_out[-1].script = b"\x6a" * rng.choice([LIMIT - 300, LIMIT + 1])
+            elif e == "add_out":
+                tx.txs_out.append(T.TxOut(rng.choice([0, 1, MAX, MAX + 1, 5000]), b"\x51"))
+            elif e == "pop_out" and len(tx.txs_out) > 1:
+                tx.txs_out.pop()
+            elif e == "value_hi":
+                tx.txs_out[0].coin_value = rng.choice([MAX + 1, MAX, -1])
+            elif e == "value_ok":
+                for o in tx.txs_out:
+                    o.coin_value = rng.choice([0, 1, 1000])
+            elif e == "dup_in":
+                t0 = tx.txs_in[rng.randrange(len(tx.txs_in))]
+                tx.txs_in.append(T.TxIn(t0.previous_hash, t0.previous_index, b"\x51", 7))
+            elif e == "undup_in" and len(tx.txs_in) > 1:
+                tx.txs_in.pop()
+            elif e == "null_in":
+                k = rng.randrange(len(tx.txs_in))
+                tx.txs_in[k].previous_hash, tx.txs_in[k].previous_index = G.NULL_HASH, G.NULL_INDEX
+            elif e == "unnull_in":
+                for k, ti in enumerate(tx.txs_in):
+                    if ti.previous_hash == G.NULL_HASH:
+                        ti.previous_hash = bytes([k + 1]) * 32
+            elif e == "big_witness":
+                tx.txs_in[0].witness = [b"\x00" * rng.choice([10, LIMIT])]
+            else:
+                continue
+            hist.append(e)
+            _judge_live(net, T, tx, rec, hist)
+
+
 def run_shard(spec, rec):
     nets = _nets(rec)
-    rec.require("Tx.check", "Tx.is_coinbase", "purity_snapshot.returning", "purity_snapshot.raising", "expected_accept")
     kind = spec["kind"]
+    if kind != "history":
+        rec.require("Tx.check", "Tx.is_coinbase", "purity_snapshot.returning", "purity_snapshot.raising", "expected_accept")
     if kind == "sweep":
         net = spec["net"]
         rec.require("Tx.bad_solution_count(coinbase)")
@@ -481,6 +548,11 @@ def run_shard(spec, rec):
             _check_one(net, nets[net], d, rec, label=label)
         return
     rng = shard_rng(spec["seed"], PROPERTY, spec["tier"], spec["shard"])
+    if kind == "history":
+        rec.require("Tx.check(history)")
+        for net in ("BTC", "GRS", "LTC"):
+            history_cases(net, nets[net], rng, rec, spec["n"])
+        return
     order = ["BTC", "GRS", "BTC", "GRS", "LTC", "BCH", "BTG"]
     for i in range(spec["n"]):
         net = order[i % len(order)]
